@@ -96,7 +96,7 @@ func (i *Interface) flushWriteCache(percentThreshold int) {
 	}
 
 	// Write the full cache in a batch operation.
-	batchPut := i.PutMany(i.options.DelayCachedWrites)
+	batchPut := i.putMany(i.options.DelayCachedWrites, false)
 	for _, r := range i.writeCache {
 		err := batchPut(r)
 		if err != nil {
